@@ -22,6 +22,7 @@ structure RetPost (K : Ctx) (σ' : S) (t : State) : Prop where
   unnamed : t.unnamed = []
   routines : σ'.routines = K.routines
   status : σ'.vm.status = .running
+  umode : ∃ m, σ'.vm.regs .unitMode = .mode m
   globals : σ'.vm.globals = t.globals
   constants : σ'.vm.constants = t.constants
   lights : σ'.vm.lights = t.lights
@@ -56,7 +57,7 @@ theorem exec_ret {stk : List Frame} {σ : S} {s : State} {pc : Nat} (h : Sim K s
     apply Exec.done
     rw [step_eq _ { s with stack := rest, pc := (ret : Int), eval := [] } h.running hpc hi rfl
       (by simp only [execInstr]; exact hret') h.running]
-    exact ⟨⟨ret, rest, hK, by simp, rfl⟩, h.running, rfl, h.unnamed, h.locals.2, h.status, h.globals,
+    exact ⟨⟨ret, rest, hK, by simp, rfl⟩, h.running, rfl, h.unnamed, h.locals.2, h.status, h.umode, h.globals,
       h.constants, h.lights, h.trace, h.defaultColor, h.matrix, h.draws, h.regs⟩
 
 def StmtRet (img : Image) (K : Ctx) (st : Stmt) (f : Nat) : Prop :=
@@ -404,39 +405,39 @@ theorem while_ret_step (f : Nat) (ihB : BlockGoal img K f) (ihBR : BlockRet img 
     · exact ihBR body hb s1 σ' t1 _ _ _ ht1.2 ht1.1 (cat hcb) hbody
 
 def CountRet (img : Image) (K : Ctx) (f : Nat) : Prop :=
-  ∀ (body : Block), FragBlock body →
-  ∀ (σ σ' : S) (s : State) (top : Nat) (stk : List Frame)
+  ∀ (body : Block), FragBlock body → ∀ (ix : Option (String × Val))
+    (σ σ' : S) (s : State) (top : Nat) (stk : List Frame)
     (vars : List (LoopVar × Val)) (ht : Nat) (cnt : Val) (q : Rat) (fl : Bool) (off : Int),
     Sim K (.loop vars ht :: stk) σ s → s.pc = (top : Int) →
-    getVar vars .counter = cnt → cnt.asNum = some (q, fl) →
-    CodeAt img top (counterTest ++ [.jump .ifFalse (((genBlock body).length + 4 : Nat) + 2)] ++
-      (resolve (genBlock body) (top + 5) ((top + 5 + (genBlock body).length + 4 + 1 : Nat) : Int) ++
-        loopPost none) ++
+    getVar vars .counter = cnt → cnt.asNum = some (q, fl) → (∀ p ∈ ix, getVar vars .incr = p.2) →
+    CodeAt img top (counterTest ++
+      [.jump .ifFalse (((genBlock body).length + (postOf ix).length : Nat) + 2)] ++
+      (resolve (genBlock body) (top + 5)
+        ((top + 5 + (genBlock body).length + (postOf ix).length + 1 : Nat) : Int) ++ postOf ix) ++
       [.jump .always off] ++ [.endLoop]) →
-    ((top + 5 + (genBlock body).length + 4 : Nat) : Int) + off = (top : Int) →
-    execPasses f (List.replicate (passes q) []) none body σ = (.ret, σ') → Exec img s (RetPost K σ')
+    ((top + 5 + (genBlock body).length + (postOf ix).length : Nat) : Int) + off = (top : Int) →
+    execPasses f (List.replicate (passes q) []) ix body σ = (.ret, σ') → Exec img s (RetPost K σ')
 
 theorem count_ret_zero : CountRet img K 0 := by
-  intro body _ σ σ' s top stk vars ht cnt q fl off _ _ _ _ _ _ h
+  intro body _ ix σ σ' s top stk vars ht cnt q fl off _ _ _ _ _ _ _ h
   simp [execPasses] at h
 
 theorem count_ret_step (f : Nat) (ihB : BlockGoal img K f) (ihBR : BlockRet img K f)
     (ihC : CountRet img K f) : CountRet img K (f + 1) := by
-  intro body hb σ σ' s top stk vars ht cnt q fl off sim hpc hcnt hnum hc hoff h
+  intro body hb ix σ σ' s top stk vars ht cnt q fl off sim hpc hcnt hnum hincr hc hoff h
   have hct := hc.left.left.left.left
   have hcj := hc.left.left.left.right.head
   have hcb := hc.left.left.right.left
   have hcp := hc.left.left.right.right
   have hcjb := hc.left.right.head
   have hlen : counterTest.length = 4 := rfl
-  have hlenp : (loopPost none).length = 4 := rfl
-  simp only [List.length_append, List.length_cons, List.length_nil, resolve_length, hlen, hlenp]
+  simp only [List.length_append, List.length_cons, List.length_nil, resolve_length, hlen]
     at hcj hcb hcp hcjb
   have hne : cnt = .none → False := by rintro rfl; simp [Val.asNum] at hnum
   have hex := exec_counterTest vars ht cnt q fl sim hpc hct hcnt hnum
   by_cases hq : 0 < q
   · rw [passes_pos q hq, List.replicate_succ, execPasses_succ] at h
-    simp only [List.foldl_nil, stepIdx] at h
+    simp only [List.foldl_nil] at h
     have hjmp : ∀ t0, (At K (top + 4) (.loop vars ht :: stk) [] σ t0 ∧
         t0.regs .result = .bool (decide (0 < q))) →
         Exec img t0 (At K (top + 5) (.loop vars ht :: stk) [] σ) := by
@@ -445,15 +446,18 @@ theorem count_ret_step (f : Nat) (ihB : BlockGoal img K f) (ihBR : BlockRet img 
         (by simp [hres, hq, Val.truthy]; omega)
     refine (hex.trans hjmp).trans fun t1 ht1 => ?_
     rcases loopBody_ret h with ⟨s2, hbody, hrest⟩ | hbody
-    · obtain ⟨c1, fl1, hsub1, hc1⟩ := sub_one_num cnt q fl hnum
+    · obtain ⟨s3, hnext, hrest⟩ := (stepIdx_cases hrest).resolve_right (by simp)
+      obtain ⟨c1, fl1, hsub1, hc1⟩ := sub_one_num cnt q fl hnum
       refine (ihB body hb σ s2 .normal t1 _ _ _ ht1.2 ht1.1 (cat hcb) hbody (Or.inl rfl)).trans
         fun t2 ht2 => ?_
       simp only [Target] at ht2
-      refine (exec_loopPost vars ht cnt c1 ht2.2 ht2.1 (cat hcp) hcnt hne hsub1).trans fun t3 ht3 => ?_
+      refine (exec_passEnd ix vars ht cnt c1 s2 s3 ht2.2 ht2.1 (cat hcp) hcnt hne hsub1 hincr hnext).trans
+        fun t3 ht3 => ?_
       refine (exec_jump .always off top (by simp) ht3.2 ht3.1 (idx hcjb) (by simpa using hoff)).trans
         fun t4 ht4 => ?_
-      exact ihC body hb s2 σ' t4 top stk _ ht c1 (q - 1) fl1 off ht4.2 ht4.1
-        (getVar_putVar vars .counter c1) hc1 hc hoff hrest
+      exact ihC body hb ix s3 σ' t4 top stk _ ht c1 (q - 1) fl1 off ht4.2 ht4.1
+        (getVar_putVar vars .counter c1) hc1
+        (fun p hp => by rw [getVar_putVar_other _ _ _ _ (by decide)]; exact hincr p hp) hc hoff hrest
     · exact ihBR body hb σ σ' t1 _ _ _ ht1.2 ht1.1 (cat hcb) hbody
   · rw [passes_nonpos q hq] at h
     simp [execPasses] at h
@@ -494,16 +498,28 @@ theorem loop_while_ret (f : Nat) (ihW : WhileRet img K f) (c : Option Rv) (hcnd 
   refine (exec_loop sim hpc hloop).trans fun t ht => ?_
   exact ihW c body hcnd hb σ σ' t (pc + 1) stk [] 0 _ ht.2 ht.1 hrest (by omega) h
 
+/-- `return` out of a counted loop -/
+theorem loop_counted_ret (f : Nat) (ihC : CountRet img K f) (pre : List Instr) (ix : Option (String × Val))
+    (body : Block) (hb : FragBlock body) (k : Nat) (σ σ1 σ' : S) (s : State) (pc exit : Nat)
+    (stk : List Frame) (sim : Sim K stk σ s) (hpc : s.pc = (pc : Int))
+    (hc : CodeAt img pc (resolve (assembleLoop pre counterTest [] (genBlock body) (postOf ix)) pc exit))
+    (hpre : CodeAt img (pc + 1) pre → ∀ t, At K (pc + 1) (.loop [] 0 :: stk) [] σ t →
+      Exec img t (fun t' => ∃ vars cnt q fl, At K (pc + 1 + pre.length) (.loop vars 0 :: stk) [] σ1 t' ∧
+        getVar vars .counter = cnt ∧ cnt.asNum = some (q, fl) ∧ (∀ p ∈ ix, getVar vars .incr = p.2) ∧
+        passes q = k))
+    (h : execPasses f (List.replicate k []) ix body σ1 = (.ret, σ')) : Exec img s (RetPost K σ') := by
+  obtain ⟨hloop, hcpre, hrest⟩ := counted_rest pre ix body hc
+  refine ((exec_loop sim hpc hloop).trans (hpre hcpre)).trans
+    fun t' ⟨vars, cnt, q, fl, ht', hcnt, hnum, hincr, hk⟩ => ?_
+  subst hk
+  exact ihC body hb ix σ1 σ' t' _ stk vars 0 cnt q fl _ ht'.2 ht'.1 hcnt hnum hincr hrest (by omega) h
+
 theorem loop_count_ret (f : Nat) (ihC : CountRet img K f) (n : Rv) (hn : RvOK n) (body : Block)
     (hb : FragBlock body) (σ σ' : S) (s : State) (pc exit : Nat) (stk : List Frame)
     (sim : Sim K stk σ s) (hpc : s.pc = (pc : Int))
     (hc : CodeAt img pc (resolve (genLoop (.count n) (genBlock body)) pc exit))
     (h : execLoop (f + 1) (.count n) body σ = (.ret, σ')) : Exec img s (RetPost K σ') := by
   simp only [genLoop] at hc
-  rw [resolve_assembleLoop] at hc
-  have hlen : counterTest.length = 4 := rfl
-  have hlenp : (loopPost none).length = 4 := rfl
-  simp only [List.nil_append, List.length_nil, Nat.add_zero, Nat.zero_add, hlen, hlenp] at hc
   simp only [execLoop] at h
   split at h
   · rename_i o' he
@@ -512,41 +528,104 @@ theorem loop_count_ret (f : Nat) (ihC : CountRet img K f) (n : Rv) (hn : RvOK n)
   · rename_i x σ1 he
     split at h
     · rename_i q hq
-      obtain ⟨fl, hnum⟩ : ∃ fl, x.asNum = some (q, fl) := by
-        simp only [numToCount, Option.map_eq_some_iff] at hq
-        obtain ⟨⟨q', fl⟩, h1, h2⟩ := hq
-        exact ⟨fl, by rw [h1]; simp at h2; rw [h2]⟩
-      have h' : execPasses f (List.replicate (passes q) []) none body σ1 = (.ret, σ') := by
-        rw [← passCount_eq]; exact h
-      have hloop := hc.left.left.left.left.left.head
-      have hpre := hc.left.left.left.left.left.tail
-      have hrest : CodeAt img (pc + 1 + (genRv n (.to counter)).length)
-          (counterTest ++ [.jump .ifFalse (((genBlock body).length + 4 : Nat) + 2)] ++
-            (resolve (genBlock body) (pc + 1 + (genRv n (.to counter)).length + 5)
-              ((pc + 1 + (genRv n (.to counter)).length + 5 + (genBlock body).length + 4 + 1 : Nat) : Int) ++
-              loopPost none) ++
-            [.jump .always (((1 + (genRv n (.to counter)).length : Nat) : Int) -
-              ((1 + (genRv n (.to counter)).length + 4 + 1 + ((genBlock body).length + 4) : Nat) : Int))] ++
-            [.endLoop]) := by
-        have e1 : pc + (1 + (genRv n (.to counter)).length + 4 + 1) =
-            pc + 1 + (genRv n (.to counter)).length + 5 := by omega
-        have e2 : pc + (1 + (genRv n (.to counter)).length + 4 + 1 + ((genBlock body).length + 4) + 1) =
-            pc + 1 + (genRv n (.to counter)).length + 5 + (genBlock body).length + 4 + 1 := by omega
-        rw [e1, e2] at hc
-        have := hc
-        simp only [List.append_assoc, List.cons_append, List.nil_append] at this ⊢
-        have hh := (CodeAt.right (a := Instr.loop :: genRv n (.to counter)) this)
-        simp only [List.length_cons] at hh
-        have e3 : pc + ((genRv n (.to counter)).length + 1) = pc + 1 + (genRv n (.to counter)).length := by
-          omega
-        rw [e3] at hh
-        exact hh
-      refine (exec_loop sim hpc hloop).trans fun t ht => ?_
-      obtain ⟨rfl, hcnt⟩ := exec_toCounter n hn [] 0 ht.2 ht.1 hpre he
-      refine hcnt.trans fun t2 ht2 => ?_
-      exact ihC body hb σ1 σ' t2 _ stk _ 0 x q fl _ ht2.2 ht2.1 (getVar_putVar [] .counter x) hnum hrest
-        (by omega) h'
+      obtain ⟨fl, hnum⟩ := numToCount_num hq
+      refine loop_counted_ret f ihC _ none body hb _ σ σ1 σ' s pc exit stk sim hpc hc ?_ h
+      intro hcpre t ht
+      obtain ⟨rfl, hcnt⟩ := exec_toCounter n hn [] 0 ht.2 ht.1 hcpre he
+      exact hcnt.mono fun t' ht' => ⟨_, x, q, fl, ht', getVar_putVar [] .counter x, hnum, by simp, rfl⟩
     · simp at h
+
+theorem loop_range_ret (f : Nat) (ihC : CountRet img K f) (v : String) (a b : Rv) (ha : RvOK a) (hbd : RvOK b)
+    (body : Block) (hb : FragBlock body) (σ σ' : S) (s : State) (pc exit : Nat)
+    (stk : List Frame) (sim : Sim K stk σ s) (hpc : s.pc = (pc : Int))
+    (hc : CodeAt img pc (resolve (genLoop (.range v a b) (genBlock body)) pc exit))
+    (h : execLoop (f + 1) (.range v a b) body σ = (.ret, σ')) : Exec img s (RetPost K σ') := by
+  simp only [genLoop] at hc
+  simp only [execLoop] at h
+  split at h
+  · rename_i o' he
+    simp only [Prod.mk.injEq] at h
+    exact ((evalRv_error ha f σ _ he).2.2 h.1).elim
+  · rename_i x σ1 hea
+    split at h
+    · rename_i o' he
+      simp only [Prod.mk.injEq] at h
+      exact ((evalRv_error hbd f _ _ he).2.2 h.1).elim
+    · rename_i y σ2 heb
+      split at h
+      · rename_i p q hp hq
+        refine loop_counted_ret f ihC _ (some (v, if q < p then .int (-1) else .int 1)) body hb _ σ
+          (σ2.assign v x) σ' s pc exit stk sim hpc hc ?_ h
+        intro hcpre t ht
+        simp only [indexVarRange, if_true] at hcpre ⊢
+        obtain ⟨rfl, hex1⟩ := exec_toLoopVar a ha .first [] 0 ht.2 ht.1 hcpre.left.left.left hea
+        refine hex1.trans fun t1 ht1 => ?_
+        obtain ⟨rfl, hex2⟩ := exec_toLoopVar b hbd .last _ 0 ht1.2 ht1.1 hcpre.left.left.right heb
+        refine hex2.trans fun t2 ht2 => ?_
+        have hfirst : getVar (putVar (putVar [] .first x) .last y) .first = x := by
+          rw [getVar_putVar_other _ _ _ _ (by decide), getVar_putVar]
+        have hlast : getVar (putVar (putVar [] .first x) .last y) .last = y := getVar_putVar _ _ _
+        have hm := hcpre.left.right.head
+        simp only [List.length_append] at hm
+        refine (exec_moveLVVar .first v ht2.2 ht2.1 (idx hm)).trans fun t3 ht3 => ?_
+        rw [hfirst] at ht3
+        have hcc := hcpre.right
+        simp only [List.length_append, List.length_cons, List.length_nil] at hcc
+        refine (exec_calcCounter x y p q ht3.2 ht3.1 (cat hcc) hfirst hlast hp hq).mono
+          fun t4 ⟨vars', fl, ht4, hcnt, hinc⟩ => ?_
+        refine ⟨vars', _, _, fl, ⟨?_, ht4.2⟩, rfl, hcnt, ?_, rfl⟩
+        · rw [ht4.1]; simp [calcCounter, testOp, incCounter]; omega
+        · intro p' hp'
+          simp only [Option.mem_def, Option.some.injEq] at hp'
+          subst hp'
+          exact hinc
+      · simp at h
+
+theorem loop_with_ret (f : Nat) (ihC : CountRet img K f) (n : Rv) (hn : RvOK n) (wc : WithClause)
+    (hw : WithOK wc) (body : Block) (hb : FragBlock body) (σ σ' : S) (s : State)
+    (pc exit : Nat) (stk : List Frame) (sim : Sim K stk σ s) (hpc : s.pc = (pc : Int))
+    (hc : CodeAt img pc (resolve (assembleLoop (genRv n (.to counter) ++ withCode wc) counterTest []
+      (genBlock body) (loopPost (some (withVarOf wc)))) pc exit))
+    (h : (match evalRv f n σ with
+        | .error o => (o, σ)
+        | .ok (cnt, s1) =>
+          match numToCount cnt with
+          | none => (.fault "count is not a number", s1)
+          | some q =>
+            match evalWith f wc cnt s1 with
+            | .error o => (o, s1)
+            | .ok (none, s2) => (.fault "arithmetic error", s2)
+            | .ok (some i, s2) =>
+              execPasses f (List.replicate (passCount q) []) (some (withVarOf wc, i)) body s2) = (.ret, σ')) :
+    Exec img s (RetPost K σ') := by
+  split at h
+  · rename_i o' he
+    simp only [Prod.mk.injEq] at h
+    exact ((evalRv_error hn f σ _ he).2.2 h.1).elim
+  · rename_i cnt σ1 he
+    split at h
+    · simp at h
+    · rename_i q hq
+      obtain ⟨fl, hnum⟩ := numToCount_num hq
+      split at h
+      · rename_i o' hew
+        simp only [Prod.mk.injEq] at h
+        exact ((evalWith_error hw f cnt σ1 _ hew).2.2 h.1).elim
+      · simp at h
+      · rename_i i σ2 hew
+        refine loop_counted_ret f ihC _ (some (withVarOf wc, i)) body hb _ σ σ2 σ' s pc exit stk sim hpc hc
+          ?_ h
+        intro hcpre t ht
+        obtain ⟨rfl, hcnt⟩ := exec_toCounter n hn [] 0 ht.2 ht.1 hcpre.left he
+        refine hcnt.trans fun t1 ht1 => ?_
+        refine (exec_with wc hw cnt q fl ht1.2 ht1.1 hcpre.right (getVar_putVar [] .counter cnt) hnum hew).mono
+          fun t2 ⟨vars', ht2, hc2, hi2⟩ => ?_
+        refine ⟨vars', cnt, q, fl, ⟨?_, ht2.2⟩, hc2, hnum, ?_, rfl⟩
+        · rw [ht2.1]; simp only [List.length_append]; congr 1; omega
+        · intro p' hp'
+          simp only [Option.mem_def, Option.some.injEq] at hp'
+          subst hp'
+          exact hi2
 
 theorem loop_ret_step (f : Nat) (ihW : WhileRet img K f) (ihC : CountRet img K f) :
     LoopRet img K (f + 1) := by
@@ -559,6 +638,13 @@ theorem loop_ret_step (f : Nat) (ihW : WhileRet img K f) (ihC : CountRet img K f
     exact loop_while_ret f ihW (some c) hhd body hb σ σ' s pc exit stk sim hpc hc
       (by simpa only [execLoop] using h)
   | count n => exact loop_count_ret f ihC n hhd body hb σ σ' s pc exit stk sim hpc hc h
+  | range v a b => exact loop_range_ret f ihC v a b hhd.1 hhd.2 body hb σ σ' s pc exit stk sim hpc hc h
+  | interp n v a b =>
+    exact loop_with_ret f ihC n hhd.1 (.fromTo v a b) hhd.2 body hb σ σ' s pc exit stk sim hpc hc
+      (by simp only [execLoop] at h; exact h)
+  | cycle n v start =>
+    exact loop_with_ret f ihC n hhd.1 (.cycle v start) hhd.2 body hb σ σ' s pc exit stk sim hpc hc
+      (by simp only [execLoop] at h; exact h)
   | _ => exact absurd hhd (by simp [LoopHdrOK])
 
 
@@ -672,7 +758,7 @@ theorem RetPost.toSim {K Kc : Ctx} {σ2 : S} {t : State} (h : RetPost K σ2 t) (
   rw [hK] at hK'
   simp only [Option.some.injEq, Prod.mk.injEq] at hK'
   obtain ⟨rfl, rfl⟩ := hK'
-  exact ⟨hpc, h.running, hst, hl, h.eval, h.unnamed, ⟨hloc, by rw [hrt]; exact h.routines⟩, h.status,
+  exact ⟨hpc, h.running, hst, hl, h.eval, h.unnamed, ⟨hloc, by rw [hrt]; exact h.routines⟩, h.status, h.umode,
     h.globals, h.constants, h.lights, h.trace, h.defaultColor, h.matrix, h.draws, h.regs⟩
 
 /-- `END name`: the routine's code ran to its end -/
@@ -680,7 +766,8 @@ theorem exec_end {stk : List Frame} {σ : S} {s : State} {pc : Nat} (h : Sim K s
     (hpc : s.pc = (pc : Int)) (nm : String) (hi : img.code[pc]? = some (.end_ nm)) (ret : Nat)
     (rest : List Frame) (hK : K.ret = some (ret, rest)) :
     Exec img s (fun t => t.pc = (ret : Int) ∧ t.stack = rest ∧ t.status = .running ∧ t.eval = [] ∧
-      t.unnamed = [] ∧ σ.routines = K.routines ∧ σ.vm.status = .running ∧ σ.vm.globals = t.globals ∧
+      t.unnamed = [] ∧ σ.routines = K.routines ∧ σ.vm.status = .running ∧
+      (∃ m, σ.vm.regs .unitMode = .mode m) ∧ σ.vm.globals = t.globals ∧
       σ.vm.constants = t.constants ∧ σ.vm.lights = t.lights ∧ σ.vm.trace = t.trace ∧
       σ.vm.defaultColor = t.defaultColor ∧ σ.vm.matrix = t.matrix ∧ σ.vm.draws = t.draws ∧
       ∀ r, r ≠ .result → σ.vm.regs r = t.regs r) := by
@@ -710,7 +797,7 @@ theorem exec_end {stk : List Frame} {σ : S} {s : State} {pc : Nat} (h : Sim K s
       simp only [execInstr, hret']
       simp [h.running]
     rw [this]
-    exact ⟨rfl, rfl, h.running, rfl, h.unnamed, h.locals.2, h.status, h.globals, h.constants, h.lights,
+    exact ⟨rfl, rfl, h.running, rfl, h.unnamed, h.locals.2, h.status, h.umode, h.globals, h.constants, h.lights,
       h.trace, h.defaultColor, h.matrix, h.draws, h.regs⟩
 
 
@@ -742,7 +829,7 @@ theorem call_user (f : Nat) (ihB : ∀ r st, BlockGoal img ⟨some (r, st), K.ro
       (run img ((genCall g ps as).length - 1) s) := by
     rw [hrun]
     exact ⟨sim.running, by simp [baseOf, calleeCtx], LoopsOnly.nil, sim.eval, sim.unnamed,
-      ⟨rfl, sim.locals.2⟩, sim.status, sim.globals, sim.constants, sim.lights, sim.trace,
+      ⟨rfl, sim.locals.2⟩, sim.status, sim.umode, sim.globals, sim.constants, sim.lights, sim.trace,
       sim.defaultColor, sim.matrix, sim.draws, fun r hr => by simp only [if_neg hr]; exact sim.regs r hr⟩
   have hpcc : (run img ((genCall g ps as).length - 1) s).pc = (addr : Int) := by rw [hrun]
   have hentry : Exec img s (At (calleeCtx K (pc + (genCall g ps as).length - 1) s.stack) addr [] []
@@ -761,11 +848,11 @@ theorem call_user (f : Nat) (ihB : ∀ r st, BlockGoal img ⟨some (r, st), K.ro
     simp only [Target] at ht1
     refine (exec_end ht1.2 ht1.1 nm hce (pc + (genCall g ps as).length - 1) s.stack rfl).trans
       fun t2 ht2 => ?_
-    obtain ⟨h1, h2, h3, h4, h5, h6, h7, h8, h9, h10, h11, h12, h13, h14, h15⟩ := ht2
+    obtain ⟨h1, h2, h3, h4, h5, h6, h7, hum, h8, h9, h10, h11, h12, h13, h14, h15⟩ := ht2
     apply Exec.step h3
     apply Exec.done
     rw [step_eq _ t2 h3 h1 hendctx rfl (by simp only [execInstr]) h3]
-    refine ⟨?_, h3, ?_, sim.loops, h4, h5, ⟨sim.locals.1, h6⟩, h7, h8, h9, h10, h11, h12, h13, h14, h15⟩
+    refine ⟨?_, h3, ?_, sim.loops, h4, h5, ⟨sim.locals.1, h6⟩, h7, hum, h8, h9, h10, h11, h12, h13, h14, h15⟩
     · show t2.pc + 1 = _
       rw [h1]; omega
     · show t2.stack = _
@@ -845,14 +932,14 @@ theorem call_builtin (g : String) (ps : List String) (as : Args) (has : SimpleAr
     (step_eq (pc := pc + 1 + (genParams ps as).length + 1) _ _ (by exact sim.running) (by simp) hend rfl
       rfl (by exact sim.running)) ?_
   apply Exec.done
-  refine ⟨?_, sim.running, sim.stack, sim.loops, sim.eval, sim.unnamed, sim.locals, ?_, ?_, ?_, ?_, ?_,
+  refine ⟨?_, sim.running, sim.stack, sim.loops, sim.eval, sim.unnamed, sim.locals, ?_, ?_, ?_, ?_, ?_, ?_,
     ?_, ?_, ?_, ?_⟩
   · show ((pc + 1 + (genParams ps as).length : Nat) : Int) + 1 + 1 = _
     rw [hlen]; omega
   all_goals (by_cases hr : (g == "random") = true)
   all_goals try simp only [hr, if_true, Bool.false_eq_true, if_false]
   all_goals first
-    | exact sim.status | exact sim.globals | exact sim.constants | exact sim.lights | exact sim.trace
+    | exact sim.status | exact sim.umode | exact sim.globals | exact sim.constants | exact sim.lights | exact sim.trace
     | exact sim.defaultColor | exact sim.matrix | exact sim.draws
     | (show σ.vm.draws + 1 = s.draws + 1; rw [sim.draws])
     | (intro r hr'; show σ.vm.regs r = (if r = Reg.result then v else if r = Reg.result then _ else s.regs r)
